@@ -87,8 +87,14 @@ def real_worker(case):
     MissingDependenciesError does not) and would stall the pool"""
     try:
         return _real_worker(case)
+    except Exception:  # noqa: BLE001  every call into mxlpy is guarded inside: this is the environment; retry once
+        pass
+    try:
+        return _real_worker(case)
     except BaseException as e:  # noqa: BLE001
-        return {"build": {"err": ["worker:" + type(e).__name__]}}
+        import traceback
+
+        return {"build": {"err": ["worker:" + type(e).__name__, traceback.format_exc()[-600:]]}}
 
 
 def _real_worker(case):
@@ -312,6 +318,13 @@ _pool = None
 def pool():
     global _pool
     if _pool is None:
+        import warnings
+
+        warnings.filterwarnings("ignore")
+        import pandas  # noqa: F401  imported before the fork so that the workers inherit the modules
+        import mxlpy.label_map  # noqa: F401
+        import mxlpy.linear_label_map  # noqa: F401
+
         _pool = mp.get_context("fork").Pool(min(16, os.cpu_count() or 4))
     return _pool
 
